@@ -847,6 +847,13 @@ def object_position(ctx):
         out = ev.returned
         if not (isinstance(out, tuple) and len(out) == 2):
             raise AnalysisError('_get_object_position: no (y0, z0) return')
+        if isinstance(out[0], str) and out[0] == 'raise':
+            res.fail(ctx.finding(
+                'OBJECT-POSITION', g, out[1],
+                f'{"infinite" if inf else "finite"} object with {ft} fields: '
+                f'_get_object_position raises instead of returning the '
+                f'launch point', construct=f'object position {inf} {ft} raises'))
+            continue
         y0, z0 = out
         fy = A('self.optic.fields.max_field') * A('Hy')
         tanf = sym.sin(fy * A('pi') / C(180)) / sym.cos(fy * A('pi') / C(180))
@@ -870,6 +877,9 @@ def object_position(ctx):
                 # measured from the first surface, at z = 0) must not vanish
                 # for any pupil position: EPL - z0 = EPL + |EPL| + c, c > 0
                 p1 = 'self.optic.surface_group.positions[1]'
+                if not (isinstance(z0, Rat) and isinstance(y0, Rat)):
+                    raise Inconclusive('launch point is not a value '
+                                       f'({type(z0).__name__})')
                 z00 = Rat(z0.n.subst(p1, Poly()), z0.d.subst(p1, Poly()))
                 dist = A('EPL') - z00
                 margin = dist - A('EPL') - sym.absv(A('EPL'))
